@@ -121,6 +121,9 @@ func (s c08svc) Big(str string, n int) string {
 	return strings.Repeat(str, n)
 }
 
+// Echo3 returns its first argument twice: several results of which some repeat (references among results).
+func (s c08svc) Echo3(a, b string) (string, string, string) { s.log.add("echo3", a, b); return a, b, a }
+
 // Same hands its argument back: a nil interface{} result among others.
 func (s c08svc) Same(x interface{}) interface{} { s.log.add("same", x); return x }
 
@@ -186,6 +189,7 @@ type c08proxy struct {
 	Three  func(x int) (int, string, float64, error)
 	Big    func(str string, n int) (string, error)
 	Same   func(x interface{}) (interface{}, error)
+	Echo3  func(a, b string) (string, string, string, error)
 	Anys   func(xs ...interface{}) (string, error)
 	Nils   func(p *int, l []int, m map[string]int, x interface{}, e *GInner, tail ...string) (string, error)
 	Absent func(x int, y string) (string, error) `name:"noSuchMethod"`
@@ -202,7 +206,7 @@ type c08nested struct {
 	}
 }
 
-var c08Names = []string{"Nop", "Inc", "Pair", "Sum", "Prefix", "Ctx", "Fail", "Boom", "Outer", "Tagged", "Map", "Strs", "Any", "Bytes", "Time", "Float", "Three", "Big", "Anys", "Nils", "Same"}
+var c08Names = []string{"Nop", "Inc", "Pair", "Sum", "Prefix", "Ctx", "Fail", "Boom", "Outer", "Tagged", "Map", "Strs", "Any", "Bytes", "Time", "Float", "Three", "Big", "Anys", "Nils", "Same", "Echo3"}
 
 func c08render(v interface{}) string {
 	return renderNorm(reflect.ValueOf(v))
@@ -424,6 +428,12 @@ func scenC08(r *Run) {
 				v = append(v, r.genString())
 			}
 			return []interface{}{v}
+		case "Echo3":
+			a := r.genString()
+			if r.PlanBool(3) {
+				return []interface{}{a, a}
+			}
+			return []interface{}{a, r.genString()}
 		case "Same":
 			switch r.Plan(4) {
 			case 0:
